@@ -46,6 +46,7 @@ type rec struct {
 }
 
 type sim struct {
+	closeFrom map[int]bool // handlers (by datagram) that close the connection when they are let go
 	soak int // > 0: the run starts with that class of skipped datagram by the hundred
 	v4   bool
 	rng  *rand.Rand
@@ -198,7 +199,7 @@ func (s *sim) peerDesc(d *dgram, peer net.Addr) map[string]any {
 	return map[string]any{"addr": addr, "port": u.Port}
 }
 
-func (s *sim) handle(peer net.Addr, enc func() []byte) {
+func (s *sim) handle(conn net.PacketConn, peer net.Addr, enc func() []byte) {
 	b := enc()
 	id := -1
 	var d *dgram
@@ -221,6 +222,14 @@ func (s *sim) handle(peer net.Addr, enc func() []byte) {
 	}
 	s.add(2, "Spawn", "id", id, "peer", s.peerDesc(d, peer), "mh", h(b), "sh", h(d.b))
 	<-gate
+	s.mu.Lock()
+	closes := s.closeFrom[id]
+	s.mu.Unlock()
+	if closes {
+		// a handler that shuts the server down: it closes the connection it was handed
+		s.add(1, "Close")
+		conn.Close()
+	}
 	s.add(2, "Finish", "id", id, "mh", h(enc()), "sh", h(d.b))
 }
 
@@ -419,7 +428,7 @@ func (s *sim) run(t *testing.T, steps []step, randomN int) {
 	}
 	if s.v4 {
 		srv, err := server4.NewServer("", nil, func(conn net.PacketConn, peer net.Addr, m *dhcpv4.DHCPv4) {
-			s.handle(peer, m.ToBytes)
+			s.handle(conn, peer, m.ToBytes)
 		}, append([]server4.ServerOpt{server4.WithConn(s)}, [][]server4.ServerOpt{nil, {server4.WithSummaryLogger()}, {server4.WithDebugLogger()},
 			{server4.WithLogger(server4.DebugLogger{Printfer: log.New(io.Discard, "", 0)})}}[s.rng.Intn(4)]...)...) // any logging configuration
 		if err != nil {
@@ -428,7 +437,7 @@ func (s *sim) run(t *testing.T, steps []step, randomN int) {
 		serve(srv.Serve)
 	} else {
 		srv, err := server6.NewServer("", nil, func(conn net.PacketConn, peer net.Addr, m dhcpv6.DHCPv6) {
-			s.handle(peer, m.ToBytes)
+			s.handle(conn, peer, m.ToBytes)
 		}, append([]server6.ServerOpt{server6.WithConn(s)}, [][]server6.ServerOpt{nil, {server6.WithSummaryLogger()}, {server6.WithDebugLogger()},
 			{server6.WithLogger(server6.DebugLogger{Printfer: log.New(io.Discard, "", 0)})}}[s.rng.Intn(4)]...)...) // any logging configuration
 		if err != nil {
@@ -499,16 +508,25 @@ func (s *sim) run(t *testing.T, steps []step, randomN int) {
 		if g == nil {
 			return false
 		}
+		if s.rng.Intn(25) == 0 {
+			s.mu.Lock()
+			if s.closeFrom == nil {
+				s.closeFrom = map[int]bool{}
+			}
+			s.closeFrom[id] = true
+			s.mu.Unlock()
+		}
 		close(g)
 		s.flush()
+		s.checkReturn(done)
 		return true
 	}
 	doClose := func() {
 		s.mu.Lock()
 		c := s.closed
 		s.mu.Unlock()
-		if c {
-			return
+		if c && s.rng.Intn(3) > 0 {
+			return // (one time in three Close is called again on the closed server)
 		}
 		s.trace = append(s.trace, map[string]any{"a": "Close"})
 		s.Close()
